@@ -35,6 +35,8 @@ type Global struct {
 	findings  map[string]*Finding // known findings of the property being checked, by obligation name
 
 	constGlobals    map[*ssa.Global]*ssa.Const
+	nonNilGlobals    map[*ssa.Global]bool
+	nonNilGlobalUsed bool
 	constGlobalUsed bool
 }
 
@@ -138,6 +140,7 @@ func load(patterns []string) (*Global, error) {
 			return nil, err
 		}
 	}
+	g.expandClosureTemplates()
 	ext, _ := filepath.Glob(filepath.Join(g.verifDir, "contracts", "*.contracts"))
 	sort.Strings(ext)
 	for _, f := range ext {
@@ -146,6 +149,54 @@ func load(patterns []string) (*Global, error) {
 		}
 	}
 	return g, nil
+}
+
+// expandClosureTemplates: a contract written as `//@ func closures-of T` applies to every anonymous
+// function of the package whose signature is that of the named function type T (enumerated from the
+// SSA of the current source, so a closure added later is covered without a new annotation).
+func (g *Global) expandClosureTemplates() {
+	var order []*Contract
+	for _, c := range g.contracts.Order {
+		if !strings.HasPrefix(c.Key, "closures-of ") {
+			order = append(order, c)
+			continue
+		}
+		delete(g.contracts.Funcs, c.Full)
+		tn := strings.TrimSpace(strings.TrimPrefix(c.Key, "closures-of "))
+		pkg := g.typesPkg[c.PkgPath]
+		if pkg == nil {
+			continue
+		}
+		obj := pkg.Scope().Lookup(tn)
+		if obj == nil {
+			continue
+		}
+		sig, ok := obj.Type().Underlying().(*types.Signature)
+		if !ok {
+			continue
+		}
+		var names []string
+		for n, fn := range g.fnByName {
+			if fn.Parent() == nil || fn.Pkg == nil || fn.Pkg.Pkg.Path() != c.PkgPath || len(fn.Blocks) == 0 {
+				continue
+			}
+			if types.Identical(fn.Signature, sig) {
+				names = append(names, n)
+			}
+		}
+		sort.Strings(names)
+		for _, n := range names {
+			if g.contracts.Funcs[n] != nil {
+				continue // an explicit contract for this closure wins
+			}
+			cc := *c
+			cc.Full = n
+			cc.Key = strings.TrimPrefix(n, c.PkgPath+".")
+			g.contracts.Funcs[n] = &cc
+			order = append(order, &cc)
+		}
+	}
+	g.contracts.Order = order
 }
 
 func (g *Global) findFuncs(sub string) []*ssa.Function {
